@@ -20,7 +20,7 @@ func init() {
 	register(&Check{
 		ID: "C04", Level: "exploration", Primary: "script_shapes", EvalCount: "responses_checked",
 		Rule: "a response script = constructor in {NewResponse, NewBindResponse, NewSearchDoneResponse, NewSearchResponseEntry, NewExtendedResponse, NewModifyResponse} x a PRNG-chosen subset of that " +
-			"constructor's documented options (NewResponse without an application code answers with its own tag, ExtendedResponse, whatever the kind of the request - the scripts are carried by bind, search, add, delete and modify requests; in 15% of the scripts of the typed constructors also options the constructor does not support - an application code, result code, strings, attributes - placed before or after the supported ones: they must not change what goes out) x 0..4 setters (SetResultCode, SetDiagnosticMessage, SetMatchedDN, SetControls, AddAttribute) with values from an adversarial pool (result codes 0..32767, application " +
+			"constructor's documented options (NewResponse without an application code answers with its own tag, ExtendedResponse, whatever the kind of the request - the scripts are carried by bind, search, add, delete and modify requests, a tenth of which pad their message ID with leading zero octets; in 15% of the scripts of the typed constructors also options the constructor does not support - an application code, result code, strings, attributes - placed before or after the supported ones: they must not change what goes out) x 0..4 setters (SetResultCode, SetDiagnosticMessage, SetMatchedDN, SetControls, AddAttribute) with values from an adversarial pool (result codes 0..32767, application " +
 			"codes 0..30, empty/binary/invalid-UTF-8 strings, 127/128/65535/65536/200000-byte strings, 0..n attributes x 0..m values, all control kinds); the handler runs the script for a request whose message ID is drawn " +
 			"from 0..2^31-1, and the strict parser checks the one frame it produced against a last-writer-wins model (fields never set are unconstrained). A quarter of the single-response requests write their response object also before some of their setters (each write must show the state at that point); a fifth of the connections park a request and let a LATER request's handler answer it through its own writer (the frame must still carry the parked request's message ID); a third of the requests get 2..3 responses. " +
 			"distinct_nontrivial = distinct (constructor, option subset, setter sequence, length classes, message-id class) signatures",
@@ -33,7 +33,7 @@ func init() {
 			}
 			return ps
 		},
-		MinObserved: []string{"responses_checked", "goldap_responses_checked", "responses_from_a_request_with_several_responses", "responses_written_again_after_further_setters", "requests_answered_by_another_requests_handler", "responses_built_with_options_their_constructor_does_not_support", "scripts_carried_by_add_delete_and_modify_requests"},
+		MinObserved: []string{"responses_checked", "goldap_responses_checked", "responses_from_a_request_with_several_responses", "responses_written_again_after_further_setters", "requests_answered_by_another_requests_handler", "responses_built_with_options_their_constructor_does_not_support", "scripts_carried_by_add_delete_and_modify_requests", "requests_whose_message_id_was_padded_with_zero_octets"},
 	})
 }
 
@@ -220,7 +220,7 @@ func genScript(r *Rand, ctor string) *c04Script {
 	return s
 }
 
-var c04Foreign, c04OtherKinds atomic.Int64
+var c04Foreign, c04OtherKinds, c04PaddedIDs atomic.Int64
 
 type c04Parked struct {
 	req  *gldap.Request
@@ -657,6 +657,7 @@ func c04Scripts(c *Ctx, useTLS bool) {
 					scripts[key] = group
 					list = append(list, group...)
 					// the request that carries the script is of any kind: what a constructor produces does not depend on it
+					from := len(all)
 					switch r.Intn(8) {
 					case 0, 1, 2:
 						all = append(all, sber.Message(s.MsgID, sber.BindRequest(3, []byte(key), []byte("p")), nil).Encode()...)
@@ -671,6 +672,15 @@ func c04Scripts(c *Ctx, useTLS bool) {
 					default:
 						all = append(all, sber.Message(s.MsgID, sber.ModifyRequest([]byte(key), nil), nil).Encode()...)
 						c04OtherKinds.Add(1)
+					}
+					// now and then the client pads its message ID with leading zero octets (gldap's reader takes that): the
+					// response is gldap's own encoding, a well-formed one
+					if idb := sber.IntBytes(s.MsgID); r.Chance(10) && len(idb) <= 5 && len(all)-from < 120 {
+						if msg, _, err := sber.Parse(all[from:]); err == nil && len(msg.Children) >= 2 {
+							msg.Children[0] = sber.Prim(sber.Universal, sber.TagInteger, append(make([]byte, 1+r.Intn(3)), idb...))
+							all = append(all[:from], msg.Encode()...)
+							c04PaddedIDs.Add(1)
+						}
 					}
 				}
 				// now and then: a request that is answered by a LATER request's handler, with that handler's writer
@@ -771,6 +781,7 @@ func c04Scripts(c *Ctx, useTLS bool) {
 	wg.Wait()
 	c.Count("responses_built_with_options_their_constructor_does_not_support", c04Foreign.Swap(0))
 	c.Count("scripts_carried_by_add_delete_and_modify_requests", c04OtherKinds.Swap(0))
+	c.Count("requests_whose_message_id_was_padded_with_zero_octets", c04PaddedIDs.Swap(0))
 }
 
 // c04GoLDAP pushes Bind and Search flows through go-ldap as a second observer.
